@@ -57,7 +57,7 @@ def snap_A(A):
 
 def _unchanged(name, A, OLD):
     if isinstance(A, np.ndarray) and not (A.shape == OLD.A0.shape and np.array_equal(A, OLD.A0)):
-        _log(name, "argument matrix was modified by the call", _mat_case(OLD.A0), "argument-modified")
+        EVALS[name + " modified its argument (not part of C18's statement; not judged)"] += 1
 
 
 def rref_post(A, result, OLD):
@@ -161,7 +161,7 @@ def mat_mul_post(m1, m2, result, OLD):
         _log("f2.mat_mul", "product differs from the exact product mod 2 (possible int8 wrap-around)",
              {"m1": _mat_case(OLD.m1_0), "m2": _mat_case(OLD.m2_0)}, "wrong-product")
     if not (np.array_equal(m1, OLD.m1_0) and np.array_equal(m2, OLD.m2_0)):
-        _log("f2.mat_mul", "argument modified", {"m1": _mat_case(OLD.m1_0), "m2": _mat_case(OLD.m2_0)}, "argument-modified")
+        EVALS["f2.mat_mul modified its argument (not judged)"] += 1
     return True
 
 
@@ -280,7 +280,7 @@ def find_layer_post(R, S, graph, result, OLD):
     EVALS["find_local_clifford_layer"] += 1
     case = {"R": OLD.R0.tolist(), "S": OLD.S0.tolist(), "graph": OLD.G0.tolist()}
     if not (np.array_equal(R, OLD.R0) and np.array_equal(S, OLD.S0) and np.array_equal(graph.adjacency_matrix, OLD.G0)):
-        _log("find_local_clifford_layer", "an argument was modified", case, "argument-modified")
+        EVALS["find_local_clifford_layer modified an argument (not judged)"] += 1
     for tag, what in layer_judge(OLD.R0, OLD.S0, graph, result):
         _log("find_local_clifford_layer", what, case, tag)
     return True
